@@ -12,6 +12,7 @@ mod c08;
 mod c09;
 mod c10;
 mod c13;
+mod c14;
 mod c15;
 mod c16;
 mod c17;
@@ -109,6 +110,7 @@ fn main() {
                 "C09" => c09::search(seed, full, &rt),
                 "C10" => c10::search(seed, full, &rt),
                 "C13" => c13::search(seed, full, &rt),
+                "C14" => c14::search(seed, full, &rt),
                 "C15" => c15::search(seed, full, &rt),
                 "C16" => c16::search(seed, full, &rt),
                 "C19" => c19::search(seed, full, &rt),
@@ -137,6 +139,7 @@ fn main() {
                 "c09" => c09::replay(&case[1..], &rt),
                 "c10" => c10::replay(&case[1..], &rt),
                 "c13" => c13::replay(&case[1..], &rt),
+                "c14" => c14::replay(&case[1..], &rt),
                 "c15" => c15::replay(&case[1..], &rt),
                 "c16" => c16::replay(&case[1..], &rt),
                 "c19" => c19::replay(&case[1..], &rt),
